@@ -90,7 +90,7 @@ def make_conn_class(h):
         def close(self):
             self.close_calls += 1
             self.is_closed = True
-            h.on_close(self)
+            h.on_close(self, sys._getframe(1).f_code.co_name)
 
         def push(self, data):
             self.sent.append(data)
@@ -193,6 +193,7 @@ class Harness(object):
         self.borrow_after_shutdown_ok = []   # property violations seen (oracle on the implementation)
         self.problems = []                   # (key, what)
         self.info = {}                       # per cid: facts for classifying a leak
+        self.close_log, self.close_shut, self.replaced = [], {}, set()
         self.ConnClass = make_conn_class(self)
         self.session = FakeSession(self)
         self.host = FakeHost()
@@ -213,8 +214,11 @@ class Harness(object):
         self.info[c.cid] = {'opened_after_shutdown_flag': bool(getattr(self, 'pool', None) and self.pool.is_shutdown)}
         return c
 
-    def on_close(self, c):
-        pass
+    def on_close(self, c, caller):
+        if c.cid is None:
+            return
+        live = len([1 for s in self.streams if s[0] == c.cid])
+        self.close_log.append((c.cid, live, caller, bool(self.pool.is_shutdown or c._defunct)))
 
     # ------------------------------------------------------------ observation
     def snap(self):
@@ -274,6 +278,11 @@ class Harness(object):
         finally:
             self.armed = False
         self.history.append([list(mop), self.cur_ints])
+        for cid in sorted(self.replaced):
+            if not self.conns[cid].is_closed and not any(s[0] == cid for s in self.streams):
+                self.problem('HostConnection.replaced-connection-not-closed',
+                             'connection %d was replaced, has only orphaned streams left, no call in progress, and is still open' % cid,
+                             'C13_eventually_closed')
 
     def exec_mop(self, mop):
         from cassandra.connection import ConnectionException
@@ -360,7 +369,10 @@ class Harness(object):
                         self.nchecking = (fn, args)
                     else:
                         self.checking = (fn, args)
+                    was = self.pool._is_replacing
                     fn(*args)
+                    if was and not self.pool._is_replacing and args[0]._thr:
+                        self.replaced.add(args[0].cid)
                     self.checking = self.nchecking = None
                     self.factory_ok = True
             elif kind == 'shutdown':
@@ -542,10 +554,22 @@ def run_replay(hist, with_conn=True, max_in_flight=4, threshold=2, close=True):
     return h
 
 
+def c13_problems(h):
+    """close() issued by the replacement machinery (return_connection trash branch / _replace) on an open pool
+    while a non-orphaned request is outstanding on that connection"""
+    probs = []
+    for (cid, live, where, excluded) in h.close_log:
+        if where in ('return_connection', '_replace') and live > 0 and not excluded:
+            probs.append(('HostConnection.%s.closed-with-live-requests' % where,
+                          'connection %d closed by %s with %d non-orphaned request(s) outstanding' % (cid, where, live),
+                          'C13_no_close_while_live'))
+    return probs
+
+
 def failure_keys(h):
     if h is None:
         return set()
-    ks = set(k for k, _ in h.leaks()) | set(k for k, _, _ in h.problems)
+    ks = set(k for k, _ in h.leaks()) | set(k for k, _, _ in h.problems) | set(k for k, _, _ in c13_problems(h))
     if getattr(h, 'crash', None):
         ks.add('HostConnection.exception')
     return ks
